@@ -89,6 +89,10 @@ func dirOf(line string) string { return strings.Fields(line)[0] }
 type Case struct {
 	Lines []int `json:"lines"` // indexes into lines, in written order
 	Perm  []int `json:"perm"`  // a permutation of positions keeping same-directive lines in relative order
+	// Neighbour: lines of a second server block (another host on the same listener) that accompanies the
+	// reordered block, before or after it; what a site does must not depend on its neighbours either
+	Neighbour      []int `json:"neighbour,omitempty"`
+	NeighbourFirst bool  `json:"neighbour_first,omitempty"`
 }
 
 func block(host string, idx []int, dir string) string {
@@ -131,11 +135,24 @@ type bresp struct {
 var seq int64
 
 func runBlock(idx []int, tag string) ([]bresp, map[string]string, error) {
+	return runBlocks(idx, tag, nil, false)
+}
+
+func runBlocks(idx []int, tag string, neighbour []int, neighbourFirst bool) ([]bresp, map[string]string, error) {
 	setup()
 	dir := filepath.Join(vt.WorkDir, fmt.Sprintf("c09-%d-%s", atomic.AddInt64(&seq, 1), tag))
 	os.MkdirAll(dir, 0o755)
 	defer os.RemoveAll(dir)
 	cf := block("localhost", idx, dir)
+	if len(neighbour) > 0 {
+		ndir := filepath.Join(dir, "neighbour")
+		os.MkdirAll(ndir, 0o755)
+		if neighbourFirst {
+			cf = block("neighbour.test", neighbour, ndir) + cf
+		} else {
+			cf += block("neighbour.test", neighbour, ndir)
+		}
+	}
 	inst, err := casket.Start(casket.CasketfileInput{Contents: []byte(cf), Filepath: filepath.Join(tree.Base, "Casketfile"), ServerTypeName: "http"})
 	if err != nil {
 		srv.Stop(inst)
@@ -213,7 +230,7 @@ func runCase(c *Case) (bool, error) {
 		}
 		return false, err
 	}
-	b, lb, err := runBlock(permuted, "b")
+	b, lb, err := runBlocks(permuted, "b", c.Neighbour, c.NeighbourFirst)
 	if err != nil {
 		if strings.HasPrefix(err.Error(), "START") {
 			return false, fmt.Errorf("the block starts as written but not with its lines reordered (order %v): %v", c.Perm, err)
@@ -229,7 +246,7 @@ func runCase(c *Case) (bool, error) {
 	}
 	for i := range battery {
 		if !reflect.DeepEqual(a[i], b[i]) {
-			return true, fmt.Errorf("request %s %s (AE %q, auth %v) is answered differently after reordering the block's lines:\n written  [%s]\n  -> %d %v %q\n reordered [%s]\n  -> %d %v %q",
+			return true, fmt.Errorf("request %s %s (AE %q, auth %v) is answered differently after reordering the block's lines (and, if any, next to the neighbour block):\n written  [%s]\n  -> %d %v %q\n reordered [%s]\n  -> %d %v %q\n neighbour block: "+fmt.Sprint(c.NeighbourFirst, c.Neighbour)+"",
 				battery[i].Method, battery[i].Target, battery[i].AE, battery[i].Auth != "", show(written), a[i].Status, a[i].Header, clip(a[i].Body), show(permuted), b[i].Status, b[i].Header, clip(b[i].Body))
 		}
 	}
@@ -280,6 +297,11 @@ func genCase(t *rapid.T) *Case {
 		next[d]++
 	}
 	c.Perm = perm
+	if rapid.Bool().Draw(t, "neighbour") {
+		nn := rapid.IntRange(1, 4).Draw(t, "nn")
+		c.Neighbour = rapid.SliceOfNDistinct(rapid.IntRange(0, len(lines)-1), nn, nn, func(i int) int { return i }).Draw(t, "nlines")
+		c.NeighbourFirst = rapid.Bool().Draw(t, "nfirst")
+	}
 	return c
 }
 
